@@ -1314,14 +1314,14 @@ def gen(rng, tier):
                         c['calls'] = [_call(entry, p, 4, o, a, reset, neg)]
                     cases.append(c)
     # ---- random call sequences
-    n_rand = 3800 if tier == 'quick' else 32000
+    n_rand = 3000 if tier == 'quick' else 30000
     for _ in range(n_rand):
         cases.append(_random_case(rng, scen))
     # ---- traced models as submodels of a linker
-    for _ in range(300 if tier == 'quick' else 3000):
+    for _ in range(200 if tier == 'quick' else 3000):
         cases.append(_linker_case(rng))
     # ---- parser-built models: the inner _evaluate is fsic's generated code
-    for _ in range(700 if tier == 'quick' else 6000):
+    for _ in range(500 if tier == 'quick' else 5000):
         cases.append(_parsed_case(rng))
     return cases
 
